@@ -35,6 +35,13 @@ TABLE = {
    imports=["From RX.Spec Require Import Tree.", "From RX.Proofs Require Import KeystoneEnc KeystoneBuilder KeystoneParse KeystoneProto KeystoneWf KeystoneParseWf."],
    groups=[("KeystoneParseWf.v", ["parse_wf_doc_tree", "parse_no_adjacent_text", "parse_single_root_element", "parse_no_text_under_root"]),
            ("KeystoneParse.v", ["parse_links_tree"])]),
+ "C07": dict(
+   intro="C07 -- an entity reference is equivalent to its replacement text written in place.\n   Machine level: processing pre ++ mid ++ post inline equals processing pre, then mid as an entity value\n   (its own stream, entity mode), then post -- for attribute values and for character data -- provided no\n   CR LF pair is split by a cut (XML 2.11 normalises line ends per entity; the two *_split_crlf lemmas show\n   the proviso is necessary).  On the model: at an entity reference the loops really run the replacement\n   text in place (norm_attr_entity_step, text_loop_entity_step); the first declaration of a name wins.\n   Not proved: the tokenizer concatenation lemma for replacement texts containing markup (D15 is the\n   known finding in that area); covered by the metamorphic correspondence.",
+   imports=["From RX.Spec Require Import Text.", "From RX.Proofs Require Import TextMachine HoistProofs RejectProofs."],
+   groups=[("HoistProofs.v", ["push_attr_chunks_app", "push_attr_lits_depth", "attr_hoist_equiv", "attr_hoist_normalise", "norm_attr_entity_step",
+                              "push_text_chunks_app", "text_boundary", "text_hoist_equiv", "text_hoist_decode", "text_loop_entity_step",
+                              "entity_first_declaration_wins", "text_hoist_split_crlf", "attr_hoist_split_crlf"]),
+           ("RejectProofs.v", ["find_entity_first", "ok_refs_defined_first"], "Local Notation token := Tokenizer.token.")]),
  "C08": dict(
    intro="C08 -- ill-formed documents are rejected.  (1) the three character classes are the Fifth Edition\n   productions for every scalar value (tables regenerated from the source on every run);\n   (2) local rejection theorems, 'accepted implies constraint': comment bodies, ']]>' in text, misplaced\n   declaration, '<' in attribute values, every consumed character is a Char, end tags match the open\n   element and cannot close an element opened outside the current entity, reserved prefixes and URIs,\n   entity references are declared (first declaration wins), and the document-level token shape: only\n   comments / PIs (and entity declarations) before the root, at most one root element, only\n   comments / PIs after it.",
    imports=["From RX.Spec Require Chars.", "From RX.Proofs Require Import CharTablesProofs RejectProofs."],
